@@ -227,8 +227,18 @@ func ruleUnionTagDecision(c *core.Ctx) {
 						}
 					}
 				case *ast.AssignStmt:
-					if s.Tok == token.OR_ASSIGN && len(s.Lhs) == 1 && len(s.Rhs) == 1 && seen != nil && identObj(info, s.Lhs[0]) == seen && identObj(info, s.Rhs[0]) == this {
-						if testOK && s.Pos() > testPos {
+					if len(s.Lhs) == 1 && len(s.Rhs) == 1 && seen != nil && identObj(info, s.Lhs[0]) == seen {
+						acc := false
+						if s.Tok == token.OR_ASSIGN && identObj(info, s.Rhs[0]) == this {
+							acc = true // seen |= kinds
+						}
+						if s.Tok == token.ASSIGN { // seen = seen | kinds (either operand order)
+							if or, ok := ast.Unparen(s.Rhs[0]).(*ast.BinaryExpr); ok && or.Op == token.OR {
+								a, b := identObj(info, or.X), identObj(info, or.Y)
+								acc = (a == seen && b == this) || (a == this && b == seen)
+							}
+						}
+						if acc && testOK && s.Pos() > testPos {
 							accAfter = true
 						}
 					}
